@@ -303,7 +303,7 @@ func ruleC12_3(c *Ctx) {
 									nonNil = true
 								}
 							}
-							if nonNil {
+							if nonNil || p.nonNilGlobalLoad(rcase.val) {
 								continue
 							}
 						}
@@ -353,4 +353,70 @@ func ruleC12_3(c *Ctx) {
 		}
 	}
 	_ = strings.TrimSpace
+}
+
+// nonNilGlobalLoad: v is a load of a package-level error variable that is assigned only by its initialiser, with a
+// freshly made error (errors.New / fmt.Errorf): `return nil, ShortLine` returns a non-nil error.
+func (p *Prog) nonNilGlobalLoad(v ssa.Value) bool {
+	ld, ok := v.(*ssa.UnOp)
+	if !ok || ld.Op != token.MUL {
+		return false
+	}
+	g, ok := ld.X.(*ssa.Global)
+	if !ok {
+		return false
+	}
+	n := 0
+	good := true
+	for _, fn := range p.Funcs {
+		allInstrs(fn, func(in ssa.Instruction) {
+			st, ok := in.(*ssa.Store)
+			if !ok || st.Addr != ssa.Value(g) {
+				return
+			}
+			n++
+			call, isCall := st.Val.(*ssa.Call)
+			if fn.Name() != "init" || !isCall {
+				good = false
+				return
+			}
+			switch staticCalleeName(&call.Call) {
+			case "errors.New", "fmt.Errorf":
+			default:
+				good = false
+			}
+		})
+	}
+	// the address must not be taken otherwise
+	if refs := g.Referrers(); refs != nil {
+		_ = refs
+	}
+	return good && n == 1 && !p.globalAddressEscapes(g)
+}
+
+// globalAddressEscapes: g is used other than as the operand of a load or the address of a store.
+func (p *Prog) globalAddressEscapes(g *ssa.Global) bool {
+	esc := false
+	for _, fn := range p.Funcs {
+		allInstrs(fn, func(in ssa.Instruction) {
+			for _, op := range in.Operands(nil) {
+				if op == nil || *op != ssa.Value(g) {
+					continue
+				}
+				switch x := in.(type) {
+				case *ssa.UnOp:
+					if x.Op != token.MUL {
+						esc = true
+					}
+				case *ssa.Store:
+					if x.Addr != ssa.Value(g) {
+						esc = true
+					}
+				default:
+					esc = true
+				}
+			}
+		})
+	}
+	return esc
 }
